@@ -14,6 +14,15 @@
 // at four instants: original, after run A's steps, after run B's single step, after Finalise. The
 // canonical strings are produced by this driver's own projection (sorted-key JSON of what the store
 // returns), independent of the comparison code of the provider; TLC compares them.
+//
+// Families: gen (generated objects x generated well-behaved scripts supplied through the ConfigMap),
+// vs (shipped VirtualService script; one "probe" route carries the hard shape, context routes are
+// plain; optionally a DestinationRule as second reference), dr (shipped DestinationRule script).
+//
+// The cases are independent and the real code is slow (a Lua state per call), so the parent process
+// starts up to 16 copies of itself (-shard i/n, case index modulo n), then merges their raw results in
+// enumeration order through fnlib: ids and outputs do not depend on the number of processes. -only ID
+// executes that one case in-process through the same code path.
 package main
 
 import (
@@ -716,6 +725,25 @@ func vsRef(rs []route, name string) *refIn {
 		apiVersion: istioAPI, k8sKind: "VirtualService", name: name, spec: vsSpec(rs)}
 }
 
+// vsRefs: the VirtualService made of the probe route and the plain context routes (probe first when
+// pos = 0, last otherwise), plus a DestinationRule when nrefs = 2
+func vsRefs(probe string, ctx []string, pos, nrefs, li int) []*refIn {
+	var rs []route
+	for _, k := range ctx {
+		rs = append(rs, routeKinds[k])
+	}
+	if pos == 0 {
+		rs = append([]route{routeKinds[probe]}, rs...)
+	} else {
+		rs = append(rs, routeKinds[probe])
+	}
+	refs := []*refIn{vsRef(rs, "vs-demo")}
+	if nrefs == 2 {
+		refs = append(refs, drRef(li%3, "dr-demo"))
+	}
+	return refs
+}
+
 func drRef(shape int, name string) *refIn {
 	sh := drShapes[shape%len(drShapes)]
 	return &refIn{Kind: "dr", Shape: sh.name, Script: "builtin", Routes: []route{}, Orig: proj{W: absent, Dw: absent, Items: []int{}, Annw: absent, Nm: absent},
@@ -824,10 +852,34 @@ func enumerate(thorough bool, emit func(c caseSpec)) {
 		nrefs   int
 		sameSvc bool
 	}
+	// The probes on which the unchanged tree is known to deviate for EVERY history (see featureOf) get
+	// a thin slice of the sequence domain: every single step plus a few mixed sequences, plain metadata,
+	// driven to done. (The orchestrator looks every BAD case up by a linear scan of the case file.)
+	oddSeqs := [][]step{}
+	for _, a := range alpha {
+		oddSeqs = append(oddSeqs, []step{a})
+	}
+	oddSeqs = append(oddSeqs, []step{{50, 0}, {1, 0}}, []step{{-1, 1}, {50, 0}}, []step{{50, 0}, {-1, 1}}, []step{{100, 0}, {0, 0}})
+	if thorough {
+		oddSeqs = append(oddSeqs, []step{{1, 0}, {50, 0}, {100, 0}}, []step{{-1, 2}, {50, 0}, {0, 0}})
+	}
+	odd := map[string]bool{"stUm": true, "stW50": true, "othNs": true, "othEmap": true, "othElist": true, "othHdr": true}
 	for _, pk := range probeKinds {
 		for li, l := range lists {
 			if l.pos == 1 && len(l.ctx) == 1 && l.ctx[0] == pk {
 				continue // same route list as pos 0
+			}
+			if odd[pk] {
+				if l.extra || (!thorough && (li == 1 || li == 4)) {
+					continue
+				}
+				for _, cb := range []combo{{1, false}, {2, true}} {
+					for _, steps := range oddSeqs {
+						pk, li, l, cb := pk, li, l, cb
+						emit(caseSpec{fam: "vs", cls: pk, steps: steps, drive: "done", sameSvc: cb.sameSvc, mk: func() []*refIn { return vsRefs(pk, l.ctx, l.pos, cb.nrefs, li) }})
+					}
+				}
+				continue
 			}
 			combos := []combo{{1, false}, {2, true}} // VS alone with a canary Service; VS + DestinationRule with subsets
 			if l.extra {
@@ -844,22 +896,7 @@ func enumerate(thorough bool, emit func(c caseSpec)) {
 						}
 						for _, dv := range drives(len(steps), mi == 0 && !l.extra && (thorough || li < 3)) {
 							pk, li, l, cb := pk, li, l, cb
-							emit(caseSpec{fam: "vs", cls: pk, steps: steps, drive: dv, lbl: mt[0], ann: mt[1], sameSvc: cb.sameSvc, mk: func() []*refIn {
-								var rs []route
-								for _, k := range l.ctx {
-									rs = append(rs, routeKinds[k])
-								}
-								if l.pos == 0 {
-									rs = append([]route{routeKinds[pk]}, rs...)
-								} else {
-									rs = append(rs, routeKinds[pk])
-								}
-								refs := []*refIn{vsRef(rs, "vs-demo")}
-								if cb.nrefs == 2 {
-									refs = append(refs, drRef(li%3, "dr-demo"))
-								}
-								return refs
-							}})
+							emit(caseSpec{fam: "vs", cls: pk, steps: steps, drive: dv, lbl: mt[0], ann: mt[1], sameSvc: cb.sameSvc, mk: func() []*refIn { return vsRefs(pk, l.ctx, l.pos, cb.nrefs, li) }})
 						}
 					}
 				}
@@ -896,9 +933,10 @@ func enumerate(thorough bool, emit func(c caseSpec)) {
 // execution: one case under recover; the raw result travels from a shard process to the parent
 
 type rawResult struct {
-	Out   json.RawMessage `json:"out"`
-	Err   string          `json:"err"`
-	Panic string          `json:"panic"`
+	Out     json.RawMessage `json:"out"`
+	Err     string          `json:"err"`
+	Panic   string          `json:"panic"`
+	Retries int             `json:"retries"`
 }
 
 func stackOfRepo() string {
@@ -918,7 +956,20 @@ func stackOfRepo() string {
 	return strings.Join(keep, " < ")
 }
 
+// execOne runs one case under recover. The real luamanager gives every script a wall-clock budget of
+// one second; on a loaded machine a run can exceed it, which is not a function of the input: such a
+// run is repeated (the objects are rebuilt from scratch every time).
 func execOne(c *caseSpec, refs []*refIn) (res rawResult) {
+	for try := 0; ; try++ {
+		res = execOnce(c, refs)
+		res.Retries = try
+		if try >= 5 || !strings.Contains(string(res.Out)+res.Err, "context deadline exceeded") {
+			return
+		}
+	}
+}
+
+func execOnce(c *caseSpec, refs []*refIn) (res rawResult) {
 	res.Out = json.RawMessage("null")
 	defer func() {
 		if r := recover(); r != nil {
@@ -992,6 +1043,7 @@ func main() {
 		panic(err)
 	}
 	thorough := fl.Tier == "thorough"
+	retried := 0 // runs repeated because a script exceeded the luamanager's one-second wall-clock budget
 	nsh := runtime.NumCPU()
 	if nsh > 16 {
 		nsh = 16
@@ -1045,6 +1097,7 @@ func main() {
 				fmt.Printf("result of case %d unreadable: %v\n", g, err)
 				os.Exit(3)
 			}
+			retried += res.Retries
 			record(w, c.input(c.mk()), func() rawResult { return res })
 		})
 		for i := 0; i < nsh; i++ {
@@ -1052,6 +1105,8 @@ func main() {
 		}
 	}
 	alpha, maxLen := alphabet(thorough)
-	w.Close(true, map[string]interface{}{"alphabet": alpha, "maxLen": maxLen, "sequences": len(sequences(alpha, maxLen)), "genShapes": len(genShapes),
-		"genScripts": genScriptNames, "probeRoutes": probeKinds, "drShapes": len(drShapes), "processes": nsh})
+	// no sampling: every case of the domain defined by enumerate() is executed; the domain is a union of
+	// explicit products, not the full cartesian product of all its dimensions, hence exhaustive=false
+	w.Close(false, map[string]interface{}{"domain": "union of explicit products (see enumerate), fully enumerated, no sampling", "alphabet": alpha, "maxLen": maxLen, "sequences": len(sequences(alpha, maxLen)), "genShapes": len(genShapes),
+		"genScripts": genScriptNames, "probeRoutes": probeKinds, "drShapes": len(drShapes), "processes": nsh, "luaTimeoutRetries": retried})
 }
